@@ -31,6 +31,8 @@ import . "github.com/pbenner/threadpool"
 type ScalarIid struct {
   Estimator ScalarEstimator
   n         int
+  // dimension of each vector of the current data set
+  dims    []int
 }
 
 /* -------------------------------------------------------------------------- */
@@ -80,11 +82,13 @@ func (obj *ScalarIid) SetData(x []ConstVector, n int) error {
     return nil
   }
   m := 0
+  obj.dims = make([]int, len(x))
   for i := 0; i < len(x); i++ {
+    if obj.n != -1 && obj.n != x[i].Dim() {
+      return fmt.Errorf("data has invalid dimension (expected dimension `%d' but data has dimension `%d)", obj.n, x[i].Dim())
+    }
+    obj.dims[i] = x[i].Dim()
     m += x[i].Dim()
-  }
-  if obj.n != -1 && obj.n != m {
-    return fmt.Errorf("data has invalid dimension (expected dimension `%d' but data has dimension `%d)", obj.n, m)
   }
   y := NullDenseVector(x[0].ElementType(), m)
   for i, k := 0, 0; i < len(x); i++ {
@@ -100,6 +104,24 @@ func (obj *ScalarIid) SetData(x []ConstVector, n int) error {
  * -------------------------------------------------------------------------- */
 
 func (obj *ScalarIid) Estimate(gamma ConstVector, p ThreadPool) error {
+  if gamma != nil && gamma.Dim() == len(obj.dims) {
+    // there is one weight per vector, whereas the scalar estimator
+    // sees the concatenated elements of all vectors
+    m := 0
+    for _, d := range obj.dims {
+      m += d
+    }
+    if m != gamma.Dim() {
+      g := NullDenseFloat64Vector(m)
+      for i, k := 0, 0; i < len(obj.dims); i++ {
+        for j := 0; j < obj.dims[i]; j++ {
+          g.At(k).Set(gamma.ConstAt(i))
+          k++
+        }
+      }
+      gamma = g
+    }
+  }
   return obj.Estimator.Estimate(gamma, p)
 }
 
